@@ -202,6 +202,10 @@ def nested_programs(tier, hi):
               ("slice", ("sort", ("sort", X, TOT), TOT3), 1, 2), ("sort", ("sort", X, ((A, True),)), ((B, False), (V, True))),
               ("slice", ("sort", ("sort", X, ((A, True),)), ((B, False), (V, True))), 0, 1),
               ("slice", ("sort", ("sort", ("sort", X, ((V, True),)), ((B, True),)), ((A, False),)), 0, 1)]
+    # a window cut from a sort on a column that the SELECT's own projection hides, sorted again on what is still visible
+    HS = ("slice", ("proj", ("sort", X, ((B, True), (A, True), (V, True))), ("a", "v")), 0, 2)
+    progs += [("sort", HS, ((A, False), (V, True))), ("slice", ("sort", HS, ((A, False), (V, True))), 0, 1), ("sort", ("dedup", HS), ((V, False), (A, True))),
+              ("sort", ("slice", ("proj", ("sort", X, ((B, False), (A, True), (V, True))), ("a", "v")), 1, 3), ((A, True),))]
     # a later sort on an expression that is not injective in the columns it reads: the earlier sort still breaks its ties
     SUM = (("add", A, B), True)
     progs += [("sort", ("sort", X, TOT), (SUM,)), ("slice", ("sort", ("sort", X, TOT), (SUM,)), 0, 2), ("slice", ("sort", ("sort", X, TOT), (SUM, (V, False))), 1, 3),
